@@ -21,11 +21,11 @@ ActsCopy == {"construct", "assign", "meta", "copy", "copywith"}
 ActsAll == {"construct", "construct_bad", "assign", "delete", "meta", "metaassign", "copy", "copywith"}
 ActsCopyOnly == {"construct", "construct_first_only", "copy", "copywithdict"}
 ActsEq == {"construct", "assign", "meta_small", "copy", "copywith", "copywithdict"}
-ClsEq == {"CirclePix", "PolygonPix", "LinePix", "CircleSky", "RectanglePix"}
-ClsEqSmall == {"CirclePix", "PolygonPix", "CircleSky"}
+ClsEq == {"CirclePix", "PolygonPix", "LinePix", "CircleSky", "RectanglePix", "PolygonSky"}
+ClsEqSmall == {"CirclePix", "PolygonPix", "CircleSky", "PolygonSky"}
 ClsSiblings == {"RectanglePix", "EllipseAnnulusSky"}
 NoDev == {}
 NoExtra == {}
-TolProbes == {"pFar", "pFarC", "pO", "pOc"}
+TolProbes == {"pFar", "pFarC", "pO", "pOc", "sAobs"}
 DevKnown == {"AssignAnnulusUnchecked"}
 =============================================================================
